@@ -111,4 +111,13 @@ CLAIMED = {
    note='Trusted: library calls are pure and return fresh objects except listed aliasing accessors; jax arrays immutable; '
         'value-level determinism for FedAvg/FedProx is apply.post/apply.state of C01/C12, the other algorithms rely on OWN + purity; '
         'seeded client hparams needed for determinism (seed=None draws OS entropy).'),
+ 'C12': dict(
+   text='Relational proof over contracts: the FedProx round and client step have the same summaries as FedAvg (C01 obligations re-run on '
+        'the real fed_prox bodies), its loss is per example loss + 0.5*mu*||w_server - w||^2 anchored at the round server params and equals '
+        'the plain loss when mu = 0; the MimeLite client step with sgd is the FedAvg sgd step and its server step is p - lr*mean; the Mime '
+        'first local step under sgd is w - eta*c (g - g + c = c); the APFL server_params component is a FedAvg step with key split(rng,3)[1] '
+        'and coefficients stay in [0,1]; link obligations check every jax/jnp call of these functions against the installed library.',
+   note='Trusted: sgd contract, optimizers/grad pure and extensional, for_each_client contract. Bounded native stand-in (not proved): '
+        'whole-round equality for HypCluster(1 cluster), MimeLite, Mime. HypCluster differs from FedAvg on an all-empty cohort with a '
+        'stateful server optimizer (documented precondition).'),
 }
